@@ -265,7 +265,11 @@ func (a *A) readerAccess() readerSets {
 
 // maySentinel: can result #idx of ret be the sentinel global g?
 func (a *A) maySentinel(ret *ssa.Return, idx int, g *ssa.Global) (bool, string) {
-	e := ret.Results[idx]
+	return a.maySentinelAt(ret.Results[idx], ret.Block(), g)
+}
+
+// maySentinelAt: can the error value e, as seen in block at, be the sentinel g?
+func (a *A) maySentinelAt(e ssa.Value, at *ssa.BasicBlock, g *ssa.Global) (bool, string) {
 	for _, l := range ssau.Leaves(e) {
 		if l == nil || ssau.IsNilConst(l) || ssau.IsErrorConstructor(l) {
 			continue
@@ -278,7 +282,7 @@ func (a *A) maySentinel(ret *ssa.Return, idx int, g *ssa.Global) (bool, string) 
 		}
 		// an error obtained from a callee: excluded only by a dominating comparison
 		excluded := false
-		for _, ed := range ssau.DominatingEdges(ret.Block()) {
+		for _, ed := range ssau.DominatingEdges(at) {
 			if nc, ok := ssau.AsNilCompare(ed.If.Cond); ok && nc.X == l {
 				isNilEdge := (ed.Succ == 1) == nc.Ne
 				if isNilEdge {
@@ -330,76 +334,219 @@ func (a *A) drainBeforeEnd() {
 		a.R.Unknown(rule, "anchor/Demuxer.NextData", a.fpos(nd), "NextData has no error result")
 		return
 	}
-	dumps := callsTo(nd, dump)
-	if !a.R.Floor(rule, "dumpUnlocked call sites in NextData", len(dumps), 1) {
+	// The functions that call dumpUnlocked: NextData itself, or helpers its drain loop has been moved into. In each of them every
+	// non-empty dump is parsed; the edges on which "the pool has just been found empty" are the empty edge of the len test of a dump
+	// and, in a caller, the nil edge of the result of a helper that returns nil only behind such an edge.
+	sites, other := a.callSites(dump)
+	for _, o := range other {
+		a.R.Unknown(rule, "dumpUnlocked/used-as-value/"+bare(o.Parent()), a.ipos(o), "dumpUnlocked is used as a function value")
+	}
+	if !a.R.Floor(rule, "dumpUnlocked call sites in the package", len(sites), 1) {
 		return
 	}
-	// empty-result edges of the dumps
-	type dumpInfo struct {
-		call     *ssa.Call
-		empty    *ssa.BasicBlock
-		nonEmpty *ssa.BasicBlock
-		excl     bool
-	}
-	var infos []dumpInfo
-	for i, d := range dumps {
-		dc, _ := d.(*ssa.Call)
-		key := fmt.Sprintf("NextData/drain-parses-every-group/dumpUnlocked#%d", i+1)
-		if dc == nil {
-			a.R.Unknown(rule, key, a.ipos(d), "dumpUnlocked is deferred or started as a goroutine")
-			continue
-		}
-		ifs := ifsOn(nd, func(v ssa.Value) bool { x, _, ok := lenTest(v); return ok && x == ssa.Value(dc) })
-		if len(ifs) != 1 {
-			a.R.Unknown(rule, key, a.ipos(d), "the result of dumpUnlocked is not tested for emptiness by exactly one len comparison")
-			continue
-		}
-		_, tWhenEmpty, _ := lenTest(ifs[0].V)
-		eb, e1 := ifs[0].when(tWhenEmpty)
-		nb, e2 := ifs[0].when(!tWhenEmpty)
-		infos = append(infos, dumpInfo{dc, eb, nb, e1 && e2})
-		// every non-empty dump is parsed
-		var parse *ssa.Call
-		for _, c := range callsTo(nd, pd) {
-			if pc, ok := c.(*ssa.Call); ok && len(pc.Call.Args) > 0 && pc.Call.Args[0] == ssa.Value(dc) {
-				parse = pc
-			}
-		}
-		switch {
-		case parse == nil:
-			a.R.Bad(rule, key, a.ipos(d), "the group returned by dumpUnlocked is never passed to parseData")
-		case !(e1 && e2):
-			a.R.Unknown(rule, key, a.ipos(d), "the emptiness test's edges are shared with other paths")
-		case !nb.Dominates(parse.Block()):
-			a.R.Bad(rule, key, a.ipos(parse), "parseData(dump) is not on the non-empty edge of the dump")
-		default:
-			esc := escapesWithout(nb, map[*ssa.BasicBlock]bool{parse.Block(): true}, func(b *ssa.BasicBlock) bool { return isExit(b) || b == dc.Block() })
-			if esc != nil {
-				a.R.Bad(rule, key, a.ipos(parse), fmt.Sprintf("a path from the non-empty edge reaches block %d (%s) without calling parseData on the group: the group is lost", esc.Index, a.ipos(lastInstr(esc))))
-			} else {
-				a.R.OK(rule, key, a.ipos(parse), "parseData(dump) is dominated by the non-empty edge and lies on every path from it to a return or to the next dump")
-			}
+	var fns []*ssa.Function
+	seenFn := map[*ssa.Function]bool{}
+	for _, s := range sites {
+		if !seenFn[s.Fn] {
+			seenFn[s.Fn] = true
+			fns = append(fns, s.Fn)
 		}
 	}
+	evidence := map[*ssa.Function]map[cfgEdge]bool{}
+	for _, f := range fns {
+		evidence[f] = map[cfgEdge]bool{}
+		for i, d := range callsTo(f, dump) {
+			dc, _ := d.(*ssa.Call)
+			key := fmt.Sprintf("%s/drain-parses-every-group/dumpUnlocked#%d", bare(f), i+1)
+			if dc == nil {
+				a.R.Unknown(rule, key, a.ipos(d), "dumpUnlocked is deferred or started as a goroutine")
+				continue
+			}
+			ifs := ifsOn(f, func(v ssa.Value) bool { x, _, ok := lenTest(v); return ok && x == ssa.Value(dc) })
+			if len(ifs) != 1 {
+				a.R.Unknown(rule, key, a.ipos(d), "the result of dumpUnlocked is not tested for emptiness by exactly one len comparison")
+				continue
+			}
+			_, tWhenEmpty, _ := lenTest(ifs[0].V)
+			eb, _ := ifs[0].when(tWhenEmpty)
+			nb, e2 := ifs[0].when(!tWhenEmpty)
+			if eb != nb {
+				evidence[f][cfgEdge{ifs[0].If.Block(), eb}] = true
+			}
+			// every non-empty dump is parsed
+			var parse *ssa.Call
+			for _, c := range callsTo(f, pd) {
+				if pc, ok := c.(*ssa.Call); ok && len(pc.Call.Args) > 0 && pc.Call.Args[0] == ssa.Value(dc) {
+					parse = pc
+				}
+			}
+			switch {
+			case parse == nil:
+				a.R.Bad(rule, key, a.ipos(d), "the group returned by dumpUnlocked is never passed to parseData")
+			case !e2:
+				a.R.Unknown(rule, key, a.ipos(d), "the non-empty edge of the emptiness test is shared with other paths")
+			case !nb.Dominates(parse.Block()):
+				a.R.Bad(rule, key, a.ipos(parse), "parseData(dump) is not on the non-empty edge of the dump")
+			default:
+				esc := escapesWithout(nb, map[*ssa.BasicBlock]bool{parse.Block(): true}, func(b *ssa.BasicBlock) bool { return isExit(b) || b == dc.Block() })
+				if esc != nil {
+					a.R.Bad(rule, key, a.ipos(parse), fmt.Sprintf("a path from the non-empty edge reaches block %d (%s) without calling parseData on the group: the group is lost", esc.Index, a.ipos(lastInstr(esc))))
+				} else {
+					a.R.OK(rule, key, a.ipos(parse), "parseData(dump) is dominated by the non-empty edge and lies on every path from it to a return or to the next dump")
+				}
+			}
+		}
+	}
+	// helpers whose nil result means "drained": every return either yields a value that is non-nil there or is cut off from the entry
+	// once the evidence edges are removed. A helper may itself rely on another helper: iterate.
+	nilMeansDrained := map[*ssa.Function]bool{}
+	addHelperEdges := func(f *ssa.Function) {
+		if evidence[f] == nil {
+			evidence[f] = map[cfgEdge]bool{}
+		}
+		for _, c := range ssau.Calls(f) {
+			hc, ok := c.(*ssa.Call)
+			if !ok || !nilMeansDrained[hc.Call.StaticCallee()] {
+				continue
+			}
+			for _, ci := range ifsOn(f, func(v ssa.Value) bool {
+				if nc, ok := ssau.AsNilCompare(v); ok && nc.X == ssa.Value(hc) {
+					return true
+				}
+				x, _, ok := lenTest(v)
+				return ok && x == ssa.Value(hc)
+			}) {
+				var nilWhen bool
+				if nc, ok := ssau.AsNilCompare(ci.V); ok {
+					nilWhen = !nc.Ne
+				} else {
+					_, nilWhen, _ = lenTest(ci.V)
+				}
+				eb, _ := ci.when(nilWhen)
+				nb, _ := ci.when(!nilWhen)
+				if eb != nb {
+					evidence[f][cfgEdge{ci.If.Block(), eb}] = true
+				}
+			}
+		}
+	}
+	callers := func(set map[*ssa.Function]bool) []*ssa.Function {
+		var out []*ssa.Function
+		for _, f := range a.funcs {
+			for _, c := range ssau.Calls(f) {
+				if set[c.Common().StaticCallee()] {
+					out = append(out, f)
+					break
+				}
+			}
+		}
+		return out
+	}
+	cands := append([]*ssa.Function{}, fns...)
+	for round := 0; round < 4; round++ {
+		changed := false
+		for _, h := range cands {
+			if h == nd || nilMeansDrained[h] || h.Signature.Results().Len() == 0 {
+				continue
+			}
+			switch h.Signature.Results().At(0).Type().Underlying().(type) {
+			case *types.Pointer, *types.Slice, *types.Map, *types.Interface:
+			default:
+				continue
+			}
+			addHelperEdges(h)
+			open := reachWithoutEdges(h, evidence[h])
+			ok, nret := true, 0
+			for _, ret := range ssau.Returns(h) {
+				nret++
+				if !open[ret.Block()] || ssau.NonNilAt(ret.Results[0], ret.Block()) {
+					continue
+				}
+				ok = false
+			}
+			if ok && nret > 0 {
+				nilMeansDrained[h] = true
+				changed = true
+				a.R.OK(rule, bare(h)+"/nil-result-means-drained", a.fpos(h), fmt.Sprintf("%d returns: each yields a value on the non-nil edge of its own nil test, or is only reachable over an edge on which dumpUnlocked (or a helper with this same summary) has just come back empty", nret))
+			}
+		}
+		if !changed {
+			break
+		}
+		for _, f := range callers(nilMeansDrained) {
+			known := false
+			for _, c := range cands {
+				if c == f {
+					known = true
+				}
+			}
+			if !known {
+				cands = append(cands, f)
+			}
+		}
+	}
+	addHelperEdges(nd)
+	if !a.R.Floor(rule, "edges of NextData on which the pool has just been found empty (dumpUnlocked / draining helper)", len(evidence[nd]), 1) {
+		return
+	}
+	open := reachWithoutEdges(nd, evidence[nd])
 	n := 0
 	for _, ret := range ssau.Returns(nd) {
-		may, why := a.maySentinel(ret, errIdx, sentinel)
+		e := ret.Results[errIdx]
+		may, why := false, ""
+		covered := true
+		if phi, isPhi := e.(*ssa.Phi); isPhi && phi.Block() == ret.Block() {
+			for i, pe := range phi.Edges {
+				p := ret.Block().Preds[i]
+				m, w := a.maySentinelAt(pe, p, sentinel)
+				if !m {
+					continue
+				}
+				may, why = true, w
+				if open[p] && !evidence[nd][cfgEdge{p, ret.Block()}] {
+					covered = false
+				}
+			}
+		} else {
+			may, why = a.maySentinelAt(e, ret.Block(), sentinel)
+			covered = !open[ret.Block()]
+		}
 		if !may {
 			continue
 		}
 		n++
 		key := fmt.Sprintf("NextData/end-only-after-empty-dump/return#%d", n)
-		ok := false
-		for _, di := range infos {
-			if di.excl && di.empty.Dominates(ret.Block()) {
-				ok = true
-			}
-		}
-		a.R.Check(ok, rule, key, a.ipos(ret),
-			"this return ("+why+") is dominated by the edge len(dumpUnlocked()) == 0: the pool is drained before the end of stream is reported",
-			"this return "+why+" but is not dominated by the empty-result edge of dumpUnlocked(): the end of stream can be reported while accumulated units are still in the pool")
+		a.R.Check(covered, rule, key, a.ipos(ret),
+			"this return ("+why+") is only reached with the sentinel over an edge on which the pool has just been found empty (len(dumpUnlocked()) == 0, or the nil result of a helper that returns nil only behind that edge): the pool is drained before the end of stream is reported",
+			"this return "+why+" but can be reached with it without passing the empty-result edge of dumpUnlocked(): the end of stream can be reported while accumulated units are still in the pool")
 	}
 	a.R.Floor(rule, "returns of NextData that may carry ErrNoMorePackets", n, 1)
+}
+
+// cfgEdge is one control-flow edge.
+type cfgEdge struct{ from, to *ssa.BasicBlock }
+
+// reachWithoutEdges: the blocks of f reachable from its entry when the given edges are removed.
+func reachWithoutEdges(f *ssa.Function, cut map[cfgEdge]bool) map[*ssa.BasicBlock]bool {
+	seen := map[*ssa.BasicBlock]bool{}
+	if len(f.Blocks) == 0 {
+		return seen
+	}
+	st := []*ssa.BasicBlock{f.Blocks[0]}
+	for len(st) > 0 {
+		b := st[len(st)-1]
+		st = st[:len(st)-1]
+		if seen[b] {
+			continue
+		}
+		seen[b] = true
+		for _, s := range b.Succs {
+			if !cut[cfgEdge{b, s}] && !seen[s] {
+				st = append(st, s)
+			}
+		}
+	}
+	return seen
 }
 
 // ---------------------------------------------------------------------------------------------
